@@ -1007,6 +1007,22 @@ func runC14Pairing(c *Ctx) {
 
 // isLoopCounter: the sum feeds a phi that is compared in a loop condition.
 func isLoopCounter(x *ssa.BinOp) bool {
+	cmpIf := func(v ssa.Value) bool {
+		for _, rr := range *v.Referrers() {
+			if bo, ok := rr.(*ssa.BinOp); ok && (bo.Op == token.LSS || bo.Op == token.LEQ || bo.Op == token.GTR || bo.Op == token.GEQ || bo.Op == token.NEQ) {
+				for _, r3 := range *bo.Referrers() {
+					if _, isIf := r3.(*ssa.If); isIf {
+						return true
+					}
+				}
+			}
+		}
+		return false
+	}
+	// range loops: the incremented index itself is tested (i' = i + 1; if i' < n)
+	if cmpIf(x) {
+		return true
+	}
 	for _, r := range *x.Referrers() {
 		if p, ok := r.(*ssa.Phi); ok {
 			for _, rr := range *p.Referrers() {
@@ -1288,6 +1304,15 @@ func runC05Append(c *Ctx) {
 				// method call through an interface named Append…: treat the first slice argument as destination
 				if x.Call.IsInvoke() && strings.HasPrefix(x.Call.Method.Name(), "Append") && len(x.Call.Args) > 0 {
 					return rec(x.Call.Args[0], d+1)
+				}
+				// a function value (callback parameter / closure variable) of append shape
+				// func(dst []T, …) []T: its result extends its first argument (the function
+				// literals passed are themselves candidates and are checked on their own)
+				if !x.Call.IsInvoke() && staticCallee(x) == nil {
+					if sig, ok := x.Call.Value.Type().Underlying().(*types.Signature); ok && sig.Params().Len() > 0 && sig.Results().Len() == 1 &&
+						types.Identical(sig.Params().At(0).Type(), sig.Results().At(0).Type()) && len(x.Call.Args) > 0 {
+						return rec(x.Call.Args[0], d+1)
+					}
 				}
 			}
 			return false
